@@ -93,6 +93,11 @@ type FS struct {
 	// error injection: the n-th mutating micro-step fails with this error (0 = off)
 	FailStep int
 	FailErr  error
+	// FailNextWrite makes the next File.Write on this disk store only FailShort bytes (at most) and then
+	// fail with ENOSPC: a disk that fills up, a quota, a file-size limit. One shot. WriteFails counts them.
+	FailNextWrite bool
+	FailShort     int
+	WriteFails    int
 	dead     bool // the process owning this disk has crashed: nothing it still does has an effect
 }
 
@@ -399,6 +404,15 @@ func (fl *File) Write(b []byte) (int, error) {
 	if off >= 0 && off < n {
 		n = off
 	}
+	var short error
+	if f.FailNextWrite && off < 0 {
+		f.FailNextWrite = false
+		f.WriteFails++
+		if f.FailShort < n {
+			n = f.FailShort
+		}
+		short = &PathError{Op: "write", Path: fl.name, Err: syscall.ENOSPC}
+	}
 	if fl.flag&O_APPEND != 0 {
 		fl.pos = len(fl.ino.data)
 	}
@@ -414,7 +428,7 @@ func (fl *File) Write(b []byte) (int, error) {
 		f.crash(off)
 	}
 	f.mu.Unlock()
-	return n, nil
+	return n, short
 }
 
 func (fl *File) WriteString(s string) (int, error) { return fl.Write([]byte(s)) }
